@@ -28,6 +28,8 @@ def run(ctx):
     for o in obs:
         if o["kind"] == "split":
             ctx.count(sha(["split", o["target"], o["orig"], len(o["pieces"])]), len(o["pieces"]) >= 2)
+        elif o["kind"] == "splitfault":
+            ctx.count(sha(["splitfault", o["target"], o["orig"]]), True)
         else:
             nreads += len(o["reads"])
             ctx.count(sha([o["via"], o["sizes"], [(r["off"], r["ln"]) for r in o["reads"]]]), o["span"])
@@ -37,6 +39,10 @@ def run(ctx):
             # growth: merge-cars is not part of C16's statement
             ctx.drift += 1
             ctx.extra.setdefault("merge_cars_drift", []).append(f"merge-cars over {len(o['pieces'])} pieces wrote {o['mergedlen']} bytes, the pieces hold {o['mergewant']}")
+            continue
+        if o["kind"] == "splitfault":
+            ctx.violation({"op": "split-car", "why": "output fault"}, f"split-car target={o['target']} ({o['blocks']} blocks) with one piece file impossible to create: {o['err']}",
+                          obs={k: v for k, v in o.items() if k not in ("orig", "families", "readback", "pieces")})
             continue
         if o["kind"] == "split":
             why = o["err"] or "pieces / readback differ from the original block families"
@@ -54,6 +60,7 @@ def run(ctx):
                           f"{o['via']} sizes={o['sizes']}: {o['err'] or ('read not allowed: ' + str(bad))}", obs={"via": o["via"], "sizes": o["sizes"], "bad_read": bad, "err": o["err"]})
     ctx.samples.append({"reads_case": {"via": obs[0]["via"], "sizes": obs[0]["sizes"], "first_reads": obs[0]["reads"][:3]}})
     sp = [o for o in obs if o["kind"] == "split"]
+    ctx.extra["split_output_faults"] = {"runs": sum(1 for o in obs if o["kind"] == "splitfault"), "loud": sum(1 for o in obs if o["kind"] == "splitfault" and o["loud"])}
     if sp:
         ctx.samples.append({"split_case": {"target": sp[0]["target"], "blocks": sp[0]["blocks"], "pieces": [(p["hdr"], p["content"], p["file"], len(p["secs"])) for p in sp[0]["pieces"]]}})
     ctx.extra["reads_judged"] = nreads
